@@ -81,6 +81,18 @@ func thorough(p *core.Prog, pr *rules.Property, c *core.Ctx, verif, repo string,
 	seeds, _ := filepath.Glob(filepath.Join(verif, "seeded", pr.ID+"-*", "patch.diff"))
 	sort.Strings(patches)
 	sort.Strings(oks)
+	// a confirmed seed that is also kept in mutants/ under the same name is the same patch: analyse it once
+	{
+		var uniq []string
+		for _, sd := range seeds {
+			name := filepath.Base(filepath.Dir(sd))
+			if _, err := os.Stat(filepath.Join(verif, "mutants", name+".patch")); err == nil {
+				continue
+			}
+			uniq = append(uniq, sd)
+		}
+		seeds = uniq
+	}
 	sort.Strings(seeds)
 	var caught, missed, skipped, okSilent, okAlarm []string
 	run := func(patch string) (string, string) {
